@@ -259,3 +259,62 @@ func Verif_C19_fb_scroll() {
 	}
 	zzverif.Reach("done")
 }
+
+// packRGBA: component comp of colour c in the framebuffer's pixel format (independent re-statement, as pack).
+func (f *vfFb) packRGBA(c color.RGBA, comp uint32) byte {
+	var packed uint32
+	packed |= uint32(c.R>>(8-f.ci.RedMaskSize)) << f.ci.RedPosition
+	packed |= uint32(c.G>>(8-f.ci.GreenMaskSize)) << f.ci.GreenPosition
+	packed |= uint32(c.B>>(8-f.ci.BlueMaskSize)) << f.ci.BluePosition
+	if f.bpp <= 16 {
+		packed &= 0xffff
+	}
+	return byte(packed >> (8 * comp))
+}
+
+// SetPaletteColor on a direct-colour framebuffer recolours the pixels that show the old colour: every pixel of the
+// text area that held the old colour holds the new one, every other pixel, the logo rows and the padding bytes between
+// rows are untouched, and nothing outside the framebuffer is accessed. The picture is concrete (a checkerboard of the
+// old colour and another one, padding bytes 0xee), the new colour is symbolic.
+func Verif_C19_fb_palette() {
+	f := vfNewFb(3)
+	idx := uint8(1 + 6*zzverif.Choice("index", 2))
+	other := uint8(2)
+	for i := 0; i < f.n; i++ {
+		pix, _, _, _, _, comp := f.classify(i)
+		row := uint32(i) / f.pitch
+		px := (uint32(i) % f.pitch) / f.bytesPP
+		switch {
+		case !pix:
+			f.cons.fb[i] = 0xee
+		case comp >= f.written():
+			f.cons.fb[i] = 0x55
+		case (px+row)%2 == 0:
+			f.cons.fb[i] = f.pack(idx, comp)
+		default:
+			f.cons.fb[i] = f.pack(other, comp)
+		}
+		f.old[i] = f.cons.fb[i]
+	}
+	nc := color.RGBA{R: zzverif.U8("r"), G: zzverif.U8("g"), B: zzverif.U8("b")}
+	panicked := zzverif.Catch(func() { f.cons.SetPaletteColor(idx, nc) })
+	zzverif.Assert(!panicked, "SetPaletteColor never touches memory outside the framebuffer")
+	if panicked {
+		return
+	}
+	for i := 0; i < f.n; i++ {
+		pix, _, _, _, _, comp := f.classify(i)
+		row := uint32(i) / f.pitch
+		px := (uint32(i) % f.pitch) / f.bytesPP
+		if !pix || comp >= f.written() || row < f.offY || f.bpp == 8 {
+			zzverif.Assert(f.checkFrame(i), "logo rows, padding bytes and unused pixel bytes are never written (an indexed-colour framebuffer is not rewritten at all)")
+			continue
+		}
+		if (px+row)%2 == 0 {
+			zzverif.Assert(f.cons.fb[i] == f.packRGBA(nc, comp), "a pixel that showed the old colour shows the new one")
+		} else {
+			zzverif.Assert(f.checkFrame(i), "a pixel of another colour is untouched")
+		}
+	}
+	zzverif.Reach("done")
+}
